@@ -17,8 +17,8 @@ import (
 
 type val interface{}
 
-type tv struct{ t *Term }             // scalar as term
-type ptr struct {                     // pointer to object / element
+type tv struct{ t *Term } // scalar as term
+type ptr struct {         // pointer to object / element
 	o    *Obj
 	idx  int   // -1 whole object, >=0 element, -2 unknown element
 	idxT *Term // when idx == -2
@@ -92,7 +92,7 @@ type HashSum struct {
 // Path is the summary of one control-flow path.
 type Path struct {
 	Atoms    []AtomVal
-	Kind     string // "return", "panic", or for regions "stop"
+	Kind     string          // "return", "panic", or for regions "stop"
 	StopAt   *ssa.BasicBlock // region mode: the block at which the path stopped
 	From     *ssa.BasicBlock // region mode: the last block executed before stopping
 	Results  []*Term
@@ -101,7 +101,7 @@ type Path struct {
 	Finals   map[string]*Term // final contents of written parameter objects, keyed P<i>
 	HashOpen []string         // hash objects with a non-empty transcript at exit
 	ExitPos  token.Pos
-	Unrec    []string // constructs the engine could not model on this path
+	Unrec    []string  // constructs the engine could not model on this path
 	Bounds   []BoundOb // constant-index / constant-bound accesses to slices, with the length known on this path
 }
 
@@ -1092,7 +1092,22 @@ func (it *interp) instr(in ssa.Instruction) {
 		}
 	case *ssa.TypeAssert:
 		src := it.term(x.X)
-		tn := types.TypeString(x.AssertedType, func(p *types.Package) string { return p.Name() })
+		// module packages by name, foreign packages by path: crypto/ed25519.PrivateKey must not collide with the module's own type
+		modRoot := ""
+		if it.fn.Pkg != nil {
+			modRoot = it.fn.Pkg.Pkg.Path()
+			for _, sep := range []string{"/internal/", "/extra/"} {
+				if i := strings.Index(modRoot, sep); i >= 0 {
+					modRoot = modRoot[:i]
+				}
+			}
+		}
+		tn := types.TypeString(x.AssertedType, func(p *types.Package) string {
+			if modRoot != "" && (p.Path() == modRoot || strings.HasPrefix(p.Path(), modRoot+"/")) {
+				return p.Name()
+			}
+			return p.Path()
+		})
 		var value val
 		if pt, ok := x.AssertedType.Underlying().(*types.Pointer); ok {
 			o := it.newObj("assert", pt.Elem())
